@@ -316,13 +316,15 @@ Section SolveAllG.
      select the same periods — the defaults by position, IndexError when the span is too short for the lags / leads — and then
      agree as above (SolverMixin.iter_periods since 7cd6323, FortranEngine.solve since 084a032) *)
   Theorem w_solve_se_refines start stop s :
+    (0 < n)%nat ->
     shape n m (vals_of s) -> length (status s) = n ->
     (forall ps, sel_positions d n start stop = inl ps -> solve_okG ps (vals_of s)) ->
     agree num (w_solve_se num sub absf ltb isfin zero evf fm d o fl start stop s)
               (py_solve_se num sub absf ltb isfin zero ev (no_hook num) (no_hook num) d o start stop s).
   Proof.
-    intros Hs Hlen Hok. unfold FSolve.w_solve_se, FSolve.py_solve_se.
+    intros Hn Hs Hlen Hok. unfold FSolve.w_solve_se, FSolve.py_solve_se.
     assert (Hlt : (max_iter o <? min_iter o) = false) by lia. rewrite Hlt, Hlen.
+    replace (n =? 0)%nat with false by (symmetry; apply Nat.eqb_neq; lia).
     destruct (sel_positions d n start stop) as [ps|e] eqn:E.
     - apply w_solve_refinesG; auto.
     - split; [reflexivity|]. repeat split.
